@@ -106,6 +106,11 @@ def stages(tier, rng, only=None):
         ["ExactCplex(opt)", "ExactOptim1", "ExactPulp"], SCHEMES, flags=(1,), namings=["scatter", "collide", "letters"])
         + ac.cases([ac.tied_first(rng) for _ in range(40 if tier == "quick" else 400)], ["Exact(opt)"], SCHEMES,
                    flags=(1,), namings=["scatter", "collide"], env="standin"), _nt))
+    out.append(ac.stage("late_cycle", PID, lambda: ac.cases(
+        [ac.late_cycle(rng) for _ in range(30 if tier == "quick" else 300)],
+        ["ExactPulp", "Exact(opt)", "Exact(noopt)", "ParCons"], SCHEMES, flags=(1,), namings=["ints", "letters", "big"])
+        + ac.cases([ac.late_cycle(rng) for _ in range(15 if tier == "quick" else 150)], ["ExactCplex(opt)", "Exact(opt)"],
+                   SCHEMES, flags=(1,), namings=["ints", "big"], env="standin"), _nt))
     out.append(ac.stage("eleven_plus", PID, lambda: ac.cases(
         [ac.eleven_plus_dataset(rng) for _ in range(6 if tier == "quick" else 40)],
         ["ExactPulp", "Exact(opt)", "Exact(noopt)", "ExactCplex(opt)", "ExactOptim1"], SCHEMES, flags=(1,)), _nt))
